@@ -47,9 +47,9 @@ package keeper
 //@   modifies state(ctx)
 //@   modifies trace
 //@   before[C06.eb.nonepoch]  SetValidatorUpdates requires !res_IsEpochEnd_0 && len(arg2) == 0
-//@   before[C07.eb.prevkeys]  ClearPreviousConsensusKeys requires res_IsEpochEnd_0 && arg_chainID == res_ChainIDWithoutRevision_0
-//@   before[C07.eb.complete]  CompleteOperatorKeyRemovalForChainID requires res_IsEpochEnd_0 && arg_chainID == res_ChainIDWithoutRevision_0
-//@   before[C07.eb.prune]     DeleteOperatorAddressForChainIDAndConsAddr requires res_IsEpochEnd_0 && arg_chainID == res_ChainIDWithoutRevision_0
+//@   before[C07.eb.prevkeys,C16.eb.prevkeys]  ClearPreviousConsensusKeys requires res_IsEpochEnd_0 && arg_chainID == res_ChainIDWithoutRevision_0
+//@   before[C07.eb.complete,C16.eb.complete]  CompleteOperatorKeyRemovalForChainID requires res_IsEpochEnd_0 && arg_chainID == res_ChainIDWithoutRevision_0
+//@   before[C07.eb.prune,C16.eb.prune]  DeleteOperatorAddressForChainIDAndConsAddr requires res_IsEpochEnd_0 && arg_chainID == res_ChainIDWithoutRevision_0
 //@   before[C16.eb.release]   DecrementUndelegationHoldCount requires res_IsEpochEnd_0
 //@ loop #1
 //@   invariant true
@@ -218,3 +218,17 @@ package keeper
 //@        (len(ret) == len(prev_ret) + 1 && ret[len(prev_ret)].Power == changes[rangeindex].Power)))
 //@   step[C06.avc.none] !res_GetExocoreValidator_1 && changes[rangeindex].Power < 1 ==> ret == prev_ret
 //@   step[C06.avc.power] ret == prev_ret || (len(ret) == len(prev_ret) + 1 && ret[len(prev_ret)].Power == changes[rangeindex].Power)
+
+// C16 (an opt-out is queued for the unbonding period exactly when the operator's key is in the validator set; a key
+// that never became active has nothing to wait for): the decision is taken on the ACTIVE VALIDATOR SET entry of the
+// consensus address of the key being removed - queued when it is there, completed at once when it is not.
+//@ func (OperatorHooksWrapper).AfterOperatorKeyRemovalInitiated
+//@   requires h.keeper != nil
+//@   flag noframe
+//@   flag pure=ToConsAddr,ChainIDWithoutRevision,GetExocoreValidator,Logger,Error
+//@   flag havoc=SetOptOutInformation,CompleteOperatorKeyRemovalForChainID
+//@   before[C16.aokri.lookup] GetExocoreValidator requires arg_addr == res_ToConsAddr_0
+//@   before[C16.aokri.queue]  SetOptOutInformation requires defined(res_GetExocoreValidator_1) && res_GetExocoreValidator_1 && arg_addr == operator
+//@   before[C16.aokri.now]    CompleteOperatorKeyRemovalForChainID requires defined(res_GetExocoreValidator_1) && !res_GetExocoreValidator_1 &&
+//@        arg2 == operator && arg3 == chainID
+//@   ensures[C16.aokri.decided] chainID == res_ChainIDWithoutRevision_0 ==> defined(res_GetExocoreValidator_1)
